@@ -268,7 +268,7 @@ func sampleCScenario(rng *rand.Rand, pkg CorpusPkg, mode Mode, i int) CScenario 
 
 // ---- oracles (generic: no typed expectations)
 
-func corpusC15(r *CRecord) []problem {
+func corpusC15(r *CRecord, stubErrors bool) []problem {
 	var out []problem
 	k := ""
 	if r.Call.Fault != nil && r.FaultFired {
@@ -302,7 +302,7 @@ func corpusC15(r *CRecord) []problem {
 			add("handler invoked at most once", fmt.Sprintf("delivery %d: middleware ran %d times", i, s.MiddlewareOps))
 		}
 		optionsPreflight := k == "method" && r.Call.Fault.Arg == "OPTIONS" && s.Status == 204 // ogen answers OPTIONS on a known path itself (Allow / CORS headers)
-		if s.MiddlewareOps == 0 && s.Explicit && !ogenStatuses[s.Status] && !optionsPreflight {
+		if s.MiddlewareOps == 0 && s.Explicit && !ogenStatuses[s.Status] && !optionsPreflight && !stubErrors {
 			add("a request that does not reach the handler is answered 404/405/401/400/415", fmt.Sprintf("delivery %d: status %d without reaching the handler", i, s.Status))
 		}
 		if s.MiddlewareOps == 1 && ogenStatuses[s.Status] && s.Status != 401 {
@@ -358,6 +358,7 @@ func (e *Engine) checkCorpus(c *core.Ctx, id string) ([]core.Violation, map[stri
 	if c.Tier == "thorough" {
 		per = 1500
 	}
+	per = scaled(per)
 	var scs, raceScs []CScenario
 	for _, p := range e.Corpus {
 		for i := 0; i < per; i++ {
@@ -386,6 +387,10 @@ func (e *Engine) checkCorpus(c *core.Ctx, id string) ([]core.Violation, map[stri
 	if err2 != nil {
 		return nil, nil, err2
 	}
+	stub := map[string]bool{}
+	for _, p := range e.Corpus {
+		stub[p.Name] = p.StubErrors
+	}
 	var vs []core.Violation
 	seen := map[string]bool{}
 	calls, reached, notReached := 0, 0, 0
@@ -408,7 +413,7 @@ func (e *Engine) checkCorpus(c *core.Ctx, id string) ([]core.Violation, map[stri
 		for _, a := range r.Alone {
 			aloneBy[[2]int{a.Task, a.Op}] = a
 			if id == "C15" {
-				ps = append(ps, corpusC15(a)...)
+				ps = append(ps, corpusC15(a, stub[scs[i].Pkg])...)
 			}
 		}
 		for _, cr := range r.Conc {
@@ -424,7 +429,7 @@ func (e *Engine) checkCorpus(c *core.Ctx, id string) ([]core.Violation, map[stri
 				}
 			}
 			if id == "C15" {
-				ps = append(ps, corpusC15(cr)...)
+				ps = append(ps, corpusC15(cr, stub[scs[i].Pkg])...)
 			} else {
 				ps = append(ps, corpusC19(aloneBy[[2]int{cr.Task, cr.Op}], cr)...)
 			}
@@ -489,12 +494,12 @@ func (e *Engine) replayCorpus(c *core.Ctx, id string, raw json.RawMessage, race 
 	for _, a := range r.Alone {
 		aloneBy[[2]int{a.Task, a.Op}] = a
 		if id == "C15" {
-			ps = append(ps, corpusC15(a)...)
+			ps = append(ps, corpusC15(a, stubOf(e, rs.Scenario.Pkg))...)
 		}
 	}
 	for _, cr := range r.Conc {
 		if id == "C15" {
-			ps = append(ps, corpusC15(cr)...)
+			ps = append(ps, corpusC15(cr, stubOf(e, rs.Scenario.Pkg))...)
 		} else {
 			ps = append(ps, corpusC19(aloneBy[[2]int{cr.Task, cr.Op}], cr)...)
 		}
@@ -506,4 +511,13 @@ func (e *Engine) replayCorpus(c *core.Ctx, id string, raw json.RawMessage, race 
 		out.Violations = append(out.Violations, core.Violation{Key: "corpus/race " + raceKey(rep), Oracle: "no data race", What: clip(rep, 1500), Seed: c.Seed, Scenario: map[string]any{"binary": "corpus-race", "scenario": rs.Scenario}})
 	}
 	return out, nil
+}
+
+func stubOf(e *Engine, pkg string) bool {
+	for _, p := range e.Corpus {
+		if p.Name == pkg {
+			return p.StubErrors
+		}
+	}
+	return false
 }
